@@ -470,8 +470,14 @@ impl ConfigActor {
 
     fn set_tmp_config(&mut self, key: ConfigKey, val: Arc<String>) {
         if let Some(v) = self.cache.get_mut(&key) {
+            let md5 = get_md5(&val);
+            if !v.tmp && v.md5.as_str() == md5 {
+                //内容与当前已提交的内容一致,无需标记为临时值;
+                //否则后续raft日志apply时会把未变更的内容当成一次变更,多记录一条历史记录
+                return;
+            }
             v.tmp = true;
-            v.md5 = Arc::new(get_md5(&val));
+            v.md5 = Arc::new(md5);
             v.content = val;
         } else {
             let mut config_val = ConfigValue::new(val);
